@@ -48,11 +48,10 @@ Definition rejects_after_shutdown (fx : bool) : Prop :=
 Definition closed_after_shutdown (fx : bool) : Prop :=
   forall s l s', psd s = true -> gsd s = true -> step fx s l = Some s' -> next s' = next s.
 
-(* quiescent: every thread has finished what it had to do (a ThreadPool::shut_down call
-   that was never started counts as finished) *)
+(* quiescent: every thread has finished what it had to do *)
 Definition quiescent_pc (p : pc) : bool :=
   match p with
-  | SIdle [] | WExited | GDone | QDone | QIdle | AwRet => true
+  | SIdle [] | WExited | GDone | QDone | AwRet => true
   | _ => false
   end.
 Definition all_done (s : state) : Prop := forall p, In p (thr s) -> quiescent_pc p = true.
